@@ -590,6 +590,113 @@ def main(argv):
             res.violation("blots prog1 | blots prog2 | blots prog2: the reloaded function gives different outputs",
                           {"kind": "cli-chain", "program": prog, "args": args, "prog1": o1, "prog2": o2,
                            "prog2_again": o3 if isinstance(o3, dict) else str(o3), "in_process_agrees": inproc})
+
+    # --- (iv) REL round: EMIT-FULLBI — bodies that use the built-ins the simulation now covers
+    # (Coq: C05_all_builtins_rel_full_proved, C05_emit_equiv_higher_order_full: every built-in but unique / includes):
+    # aggregates, list / string / record built-ins, convert round random to_number to_string join, and the
+    # callback-taking sort_by / group_by / count_by, over captured data, captured closures and lists of closures.
+    # Law on the implementation (original == reloaded == re-emitted == third), and the model run with the FULL
+    # dispatcher (coq/EmitRunFull.v) against the implementation.  unique / includes shapes are generated too and
+    # counted under F53 when function values are around.
+    FB_POOL = [("data", "k = [3, 1, 2]"), ("data", "k = {a: 1, b: [2, 3]}"), ("data", "k = \"b,a,c\""),
+               ("closure", "c0 = 2\nk = z => z * c0"), ("closure", "c0 = \"s\"\nh = z => to_string(z) + c0\nk = z => h(z)"),
+               ("closures", "c0 = 1\nk = [z => z + c0, z => z * 2, z => 0 - z]"),
+               ("closures", "mk = a => (y => y + a)\nk = [mk(1), mk(2), mk(1)]")]
+    FB_BODIES = ["sort_by(x, k)", "sort_by(k, z => 0 - z)", "group_by(x, z => to_string(k(z)))", "count_by(x, z => to_string(k(z)))",
+                 "map(sort_by(k, g => 0 - g(j)), g => g(1))", "head(sort_by(k, g => 0 - g(j)))", "values(group_by(k, g => to_string(g(j))))",
+                 "count_by(k, g => typeof(g))", "[sum(k), min(k), max(k), avg(k), prod(k), median(k), percentile(k, 50)]",
+                 "zip(k, x)", "chunk(k, 2)", "flatten([k, x])", "concat(k, x)", "reverse(k)", "slice(k, 0, 2)", "head(k)", "tail(k)",
+                 "len(k)", "keys(k)", "values(k)", "entries(k)", "split(k, \",\")", "replace(k, \",\", \"-\")",
+                 "join(sort(split(k, \",\")), \"+\")", "to_string(k)", "to_number(to_string(len(k)))", "round(avg(k) / 3, 2)",
+                 "dot(k, k)", "range(len(k))", "sort(k)", "sort(concat(k, x))", "convert(sum(k), \"km\", \"m\")", "random(len(k))",
+                 "map(x, k)", "filter(map(k, g => g(j)), n => n > 0)", "typeof(head(k))",
+                 "unique(k)", "includes(k, head(k))", "len(unique(concat(k, k)))", "includes(x, k)"]
+    FB_ARGS = ["[3, 1, 2]", "2", "[\"b\", \"a\"]", "[z => z + 1, 5]"]
+    fb_cases = [("fullbi/" + tag, program(defs, "x", body), FB_ARGS) for tag, defs in FB_POOL for body in FB_BODIES]
+    fb_rust = rust_emit(h, fb_cases)
+    fb_parsed = [fields(o) for o in fb_rust]
+    for (kind, prog, args), o in zip(fb_cases, fb_rust):
+        if o.startswith("PANIC") or o.startswith("ABORT"):
+            res.violation("emitting / reloading a function panicked or aborted",
+                          {"kind": "impl", "program": prog, "args": args, "observed": o[:300]})
+    fb = {"cases": len(fb_cases), "law_checked": 0, "law_ok": 0, "law_excused": {}, "law_violations": 0, "ok_results": 0,
+          "err_results": 0, "fn_results": 0, "by_pool": {}, "model_agree": 0, "model_skipped_unmodelled": 0, "model_mismatch": 0,
+          "model_eval_failed": 0, "bodies": len(FB_BODIES), "pool": len(FB_POOL), "args": len(FB_ARGS)}
+    try:
+        fb_reports = model_reports(fb_parsed, "c05fr")
+    except c.BrokenTie as e:
+        res.tie_broken(e.what, e.detail)
+        fb_reports = [None] * len(fb_cases)
+    fb_fail, fb_ok_idx = [], []
+    for i, ((kind, prog, args), d, rep) in enumerate(zip(fb_cases, fb_parsed, fb_reports)):
+        if "VAL" not in d or rep is None:
+            continue
+        bits = rep[1:10]
+        if bits[5] != "1" or d.get("PORT") != "1":
+            continue
+        ex = excuse(bits, state, "law", open_ids)
+        is_f53 = "F53" in open_ids and f52_class(prog, d["VAL"], args)
+        fb["by_pool"][kind] = fb["by_pool"].get(kind, 0) + 1
+        if ex is None and rep.split(" A1")[1][:4][want] == "1":
+            fb_ok_idx.append(i)
+        for a, r in zip(args, d["R"]):
+            fb["law_checked"] += 1
+            if r[0].startswith("OK"):
+                fb["ok_results"] += 1
+                nontrivial.add((prog, a))
+                if "FN(" in r[0]:
+                    fb["fn_results"] += 1
+            else:
+                fb["err_results"] += 1
+            if len(r) == 4 and r[0] == r[1] == r[2] == r[3]:
+                fb["law_ok"] += 1
+            elif ex is not None:
+                fb["law_excused"][ex] = fb["law_excused"].get(ex, 0) + 1
+            elif is_f53:
+                fb["law_excused"]["F53"] = fb["law_excused"].get("F53", 0) + 1
+            else:
+                fb["law_violations"] += 1
+                fb_fail.append((prog, a, r, rep))
+    for prog, a, r, rep in fb_fail[:5]:
+        res.violation("a closed-after-capture function and its reloaded emission disagree (body uses the full built-in set)",
+                      {"kind": "impl-law", "program": prog, "args": [a],
+                       "observed": {"original": r[0], "reloaded": r[1], "re-emitted and reloaded": r[2] if len(r) > 2 else None,
+                                    "third re-emission": r[3] if len(r) > 3 else None},
+                       "expected": "all four equal (Coq: C05_emit_equiv_higher_order_full)", "classes": rep,
+                       "rerun": "./check C05 --replay <this file>"})
+    n_fb = 90 if tier == "quick" else len(fb_ok_idx)
+    fb_sel = sorted(rng.shuffle(list(fb_ok_idx))[:n_fb])
+    fb_mism = []
+    try:
+        allargs = sorted({a for i in fb_sel for a in fb_cases[i][2]})
+        terms = dict(zip(allargs, call_terms(h, allargs)))
+        exprs, keep = [], []
+        for i in fb_sel:
+            st_, _, val_ = fb_parsed[i]["VAL"].partition("] ")
+            calls_ = [terms[a] for a in fb_cases[i][2]]
+            if any(t is None for t in calls_):
+                continue
+            exprs.append("(emit_behaviour_full %s %s %s] %s [%s])" % (b(nanfix), b(dofix), st_, val_, "; ".join(calls_)))
+            keep.append(i)
+        outs_ = c.coq_eval_batch(REQ + ["Blots.EvalFull", "Blots.EmitRunFull"], "", exprs, "c05fb", shard=30)
+        for i, out in zip(keep, outs_):
+            if out is None:
+                fb["model_eval_failed"] += 1
+                continue
+            for (a, r, m) in zip(fb_cases[i][2], fb_parsed[i]["R"], out.split(" ")):
+                if "UNMODELLED" in m:
+                    fb["model_skipped_unmodelled"] += 1
+                elif m == r[0] + "/" + r[1]:
+                    fb["model_agree"] += 1
+                else:
+                    fb_mism.append((fb_cases[i][1], a, "/".join(r[:2]), m))
+    except c.BrokenTie as e:
+        res.tie_broken(e.what, e.detail)
+    fb["model_mismatch"] = len(fb_mism)
+    if fb_mism:
+        res.tie_broken("correspondence C05/EMIT-FULLBI: model (full dispatcher) and implementation disagree on %d calls" % len(fb_mism),
+                       "first: %r args %r\nimpl : %s\nmodel: %s" % fb_mism[0])
+    res.streams["EMIT-FULLBI"] = fb
     res.streams["EMIT"] = dict(stats, repo_state=state, model_variant="nanfix=%s dofix=%s" % (nanfix, dofix),
                                pool=len(POOL), small_shapes=len(small_bodies()),
                                behaviour_model_agree=beh_agree, behaviour_model_skipped_unmodelled=beh_skip,
